@@ -125,10 +125,26 @@ func (x *Exec) VerifyFunc(fn *ssa.Function, ct *Contract) (err error) {
 	x.unitFunc = QualName(fn)
 	x.ghost = map[string]Value{}
 	x.Notes.UnderContract[QualName(fn)] = true
+	x.rootContract = ct
 	st, args := x.initialState(fn)
+	// a closure as the unit: its captured variables are arbitrary (non-nil) cells
+	var bindings []Value
+	for _, fv := range fn.FreeVars {
+		bv := x.FreshValue("fv$"+fv.Name(), fv.Type())
+		x.assume(st, x.wf(bv, st.Alloc))
+		if _, isPtr := fv.Type().Underlying().(*types.Pointer); isPtr {
+			x.assume(st, x.C.Distinct(bv.L[0], x.C.IntLit(0)))
+		}
+		bindings = append(bindings, bv)
+	}
 	env := &evalEnv{x: x, st: st, pkg: ct.Pkg.Types, vars: map[string]Value{}}
 	for i, p := range fn.Params {
 		env.vars[p.Name()] = args[i]
+	}
+	for i, fv := range fn.FreeVars {
+		if pt, ok := fv.Type().Underlying().(*types.Pointer); ok {
+			env.vars[fv.Name()] = x.Load(st, bindings[i], pt.Elem())
+		}
 	}
 	for _, g := range ct.Ghost {
 		t := env.lookupType(g.Type)
@@ -156,7 +172,7 @@ func (x *Exec) VerifyFunc(fn *ssa.Function, ct *Contract) (err error) {
 		st.Env[k] = env.asInt(env.eval(gv.Expr))
 	}
 	x.addCover(st, "requires", fn.Pos(), "precondition is satisfiable")
-	fr := &frame{fn: fn, args: args, entry: st.snapshot(), contract: ct, verify: true}
+	fr := &frame{fn: fn, args: args, bindings: bindings, entry: st.snapshot(), contract: ct, verify: true}
 	x.stack = []*ssa.Function{fn}
 	before := len(x.Obls)
 	x.ExecFunc(fr, st)
